@@ -21,8 +21,9 @@ def partitions(tier):
     parts = []
     for v in ("2.0", "2.1", "2.2"):
         for first in (0, 1):
-            parts.append({"name": "flush-%s-first%s" % (v, "ab"[first]), "fn": "sym_flush", "version": v, "first": first,
-                          "keys": 4, "wakes": 2 if q else 3, "budget": 600 if q else 3600, "cost": 5})
+            for k0 in (0, 1, 2, 3):
+                parts.append({"name": "flush-%s-first%s-k%d" % (v, "ab"[first], k0), "fn": "sym_flush", "version": v, "first": first, "key0": k0,
+                              "keys": 4, "wakes": 2 if q else 3, "budget": 600 if q else 3600, "cost": 5})
     return parts
 
 
@@ -47,7 +48,7 @@ def sym_flush(inp, part):
     keys = [(0, 1), (0, 2), (1, 1), (1, 2)][:part["keys"]]
     cmds = []  # (node index, child, line)
     for i, (who, child) in enumerate(keys):
-        if inp.bool("parked%d" % i):
+        if (bool((part["key0"] >> i) & 1) if (i < 2 and "key0" in part) else inp.bool("parked%d" % i)):
             w.park(ids[who], child, 2, "v%d" % i)
             cmds.append((who, child, M.line(ids[who], child, 1, 0, 2, "v%d" % i)))
     if not cmds:
